@@ -14,7 +14,8 @@ RULE = ("Histories as generated operation lists over a pool of shared objects (2
         "evaluate correlation / spectral_density / eta_function / correlation_2d_integral on a pool member; build a Bath from "
         "a pool member; query a Bath built earlier; run a computation (TEMPO, PT-TEMPO, Gibbs, compute_dynamics, "
         "state_gradient, compute_correlations, PT-TEBD) with pool members and with caller arrays passed C-ordered, F-ordered, "
-        "as strided views, read-only, or as transposed views. Oracles: (i) every caller array is bit-identical afterwards "
+        "as strided views, read-only, or as transposed views; closed-system compute_dynamics / compute_dynamics_with_field "
+        "included. Oracles: (0) a returned Dynamics does not change when the caller overwrites its input arrays after the call; (i) every caller array is bit-identical afterwards "
         "(data, shape, strides, flags); (ii) every result equals the same call on freshly constructed equal objects built "
         "from the current parameter values (1e-10, exact for pure functions); (iii) methods of one object mutually consistent "
         "with its current attributes; (iv) a Bath built earlier keeps answering with the values at its construction; (v) the "
@@ -102,7 +103,8 @@ def s_case(draw, tier):
                         "layout": draw(st.sampled_from(LAYOUTS))})
         else:
             ops.append({"op": "compute", "c": c, "b": draw(st.integers(0, 3)), "use_bath": draw(st.booleans()),
-                        "kind": draw(st.sampled_from(["tempo", "pt-tempo+dynamics", "gibbs", "gradient", "correlations", "pt-tebd"])),
+                        "kind": draw(st.sampled_from(["tempo", "pt-tempo+dynamics", "gibbs", "gradient", "correlations", "pt-tebd",
+                                                     "closed-dynamics", "closed-with-field"])),
                         "layout": draw(st.sampled_from(LAYOUTS))})
     return {"ops": ops, "rho0": draw(gens.dm_spec(2)), "H": draw(gens.herm_spec(2, 1, 2)),
             "T0": [draw(st.sampled_from([0.0, 0.02, 0.5])), draw(st.sampled_from([0.02, 0.5]))],
@@ -136,19 +138,37 @@ def _evaluate(c, what, x):
     return complex(c.correlation_2d_integral(x, 2 * x, 2 * x + 1.5 * x, shape="rectangle"))
 
 
+_HELD = [None]      # re-reads the value from the result object of the last _compute call (None: nothing to re-read)
+
+
 def _compute(kind, corr, bath, arrays, pooled=None):
     """returns a numeric result; arrays: dict rho0, H, O, target, params; pooled: (System, TempoParameters) objects
     shared by the whole history (None: fresh ones)"""
     import oqupy
     from oqupy import operators
     rho0, H, O = arrays["rho0"], arrays["H"], arrays["O"]
+    _HELD[0] = None
     if bath is None:
         bath = oqupy.Bath(O, corr)
     par = oqupy.TempoParameters(dt=0.1, epsrel=1e-8, dkmax=2) if pooled is None else pooled[1]
     system = oqupy.System(H) if pooled is None else pooled[0]
     kw = dict(progress_type="silent")
     if kind == "tempo":
-        return np.array(oqupy.Tempo(system, bath, par, rho0, 0.0).compute(0.35, **kw).states)
+        dyn = oqupy.Tempo(system, bath, par, rho0, 0.0).compute(0.35, **kw)
+        _HELD[0] = lambda: np.array(dyn.states)
+        return _HELD[0]()
+    if kind == "closed-dynamics":
+        # no environment: the recorded initial state is the closest a result comes to the caller's own array
+        dyn = oqupy.compute_dynamics(system, rho0, dt=0.1, num_steps=3, **kw)
+        _HELD[0] = lambda: np.array(dyn.states)
+        return _HELD[0]()
+    if kind == "closed-with-field":
+        sp, sm = operators.sigma("+"), operators.sigma("-")
+        mfs = oqupy.MeanFieldSystem([oqupy.TimeDependentSystemWithField(lambda t, a: H + 0.3 * (a * sp + np.conj(a) * sm))],
+                                    lambda t, states, a: -0.5j * a - 0.3j * np.trace(states[0] @ sm))
+        dyn = oqupy.compute_dynamics_with_field(mfs, 0.3 + 0.1j, None, dt=0.1, num_steps=3, initial_state_list=[rho0], **kw)
+        _HELD[0] = lambda: np.concatenate([np.array(dyn.system_dynamics[0].states).reshape(-1), np.asarray(dyn.fields).reshape(-1)])
+        return _HELD[0]()
     if kind == "gibbs":
         T = getattr(bath.correlations, "temperature", 0.0)
         if T <= 0:
@@ -156,7 +176,9 @@ def _compute(kind, corr, bath, arrays, pooled=None):
         return np.array(oqupy.gibbs_tempo_compute(system, bath, oqupy.GibbsParameters(4, 1e-8), **kw))
     pt = oqupy.pt_tempo_compute(bath, 0.0, 0.35, par, **kw)
     if kind == "pt-tempo+dynamics":
-        return np.array(oqupy.compute_dynamics(system, rho0, process_tensor=pt, **kw).states)
+        dyn = oqupy.compute_dynamics(system, rho0, process_tensor=pt, **kw)
+        _HELD[0] = lambda: np.array(dyn.states)
+        return _HELD[0]()
     if kind == "correlations":
         return np.nan_to_num(np.asarray(oqupy.compute_correlations(system, pt, O, H, slice(None), slice(None),
                                                                    initial_state=rho0, **kw)[1]))
@@ -387,6 +409,21 @@ def run_case(case):
                 return out
             if got is None:
                 continue
+            if _HELD[0] is not None:
+                # the caller re-uses its buffers after the call: a result that has been returned must not follow them
+                reread = _HELD[0]
+                wrote = False
+                for v in arrays.values():
+                    if v.flags["WRITEABLE"]:
+                        v[...] = 7.25
+                        wrote = True
+                if wrote:
+                    out.label("buffers-overwritten-after-call")
+                    again = reread()
+                    if again.shape != got.shape or not np.array_equal(again, got):
+                        out.fail(f"result-follows-caller-buffer:{op['kind']}",
+                                 f"op {i}: the returned result changed when the caller overwrote its input arrays after the call (layout {lay})")
+                        return out
             fresh_arrays = {k: np.ascontiguousarray(np.array(v)) for k, v in src.items()}
             want = _compute(op["kind"], _fresh(p_used), None, fresh_arrays)
             used[c] = True
